@@ -83,15 +83,18 @@ CLAIMED["C04"] = dict(
          "link at the same instant the higher priority wins in either registration order (through both stable sorts and the loop); and a WINDOW -- "
          "'on' AT TIME ts, 'off' AT TIME te on one target -- is on at a solved step exactly when ts <= time < te, with steps solved at exactly ts and te, "
          "for every grid and also when both instants lie inside one hydraulic step, and such a run exists and reaches the duration (C04/Window.v: invariant "
-         "over the whole run + progress measure = total correctness). The model also "
+         "over the whole run + progress measure = total correctness); and for ANY NUMBER of AT TIME controls at pairwise distinct instants (any "
+         "targets, values, priorities, grids; no rules) every solved step shows on every link the command of the latest control whose instant "
+         "has been reached, no instant at which a control changes a status is stepped over, and the run exists and ends at the duration "
+         "(C04/AtTimeSet.v: the two stable sorts as sorted permutations, the presolve loop over the sorted list, the steps). The model also "
          "proves (by evaluation) what the CURRENT code does wrong: daily clock-time controls act at 2x the threshold, 'before' clock "
          "conditions are never true, rules are evaluated at t=0 -- recorded as known findings. Tie decided inside coqc: the (time, status) "
          "trace of the real simulator equals Sched.run for every generated configuration of controls and rules (exact).",
     ref="DESIGN.md section 5 C04, Appendix A",
     note="Trusted: Coq kernel (axiom-free); harness building the same configuration through the API and as a Gallina term. Modelled not "
          "verified: sim_time as a float holding integers; the hydraulic solve (irrelevant to time conditions; trivial network). Partial: the "
-         "closed whole-run proofs cover one AT TIME control, an on/off window of two, one TIME >= rule and two same-instant controls of different priority; for arbitrary "
-         "SETS of controls and rules the whole-run behaviour is established by exact trace equality on generated configurations plus the "
+         "closed whole-run proofs cover any set of AT TIME controls at distinct instants without rules, an on/off window, one TIME >= rule and two "
+         "same-instant controls of different priority; for sets mixing rules, clock-time and repeating conditions or coinciding instants the whole-run behaviour is established by exact trace equality on generated configurations plus the "
          "lemma-level proofs (no general functional specification of the loop is proved).",
     technique="Coq proof (arithmetic/case analysis on a transcribed scheduler, vm_compute witnesses) + exact trace correspondence")
 
